@@ -21,6 +21,7 @@ import (
 func TestVerifC04(t *testing.T) {
 	r := vlib.Start("C04", vPart("det"))
 	defer r.Finish()
+	c04ReadFaults(t, r)
 	rr := r.Rand("c04", r.Part)
 	n := r.Pick(300, 20000)
 	if r.Part != "det" {
@@ -320,6 +321,120 @@ func TestVerifC04(t *testing.T) {
 				}
 			}
 			r.Sample(map[string]any{"id": id, "generations": s})
+		}
+	}
+}
+
+// c04ReadFaults: the forwarding state becomes unreadable after it was flipped.
+// Whatever the daemon then does (stop, retry, stay silent), it must not send an
+// RA with a non-zero router lifetime while forwarding is in fact off: an
+// earlier reading says nothing about the moment the RA is generated.
+func c04ReadFaults(t *testing.T, r *vlib.Run) {
+	paths := []string{"solicited", "periodic", "peer-ra", "solicited+periodic"}
+	for lk, lname := range []string{"auto", "explicit"} {
+		for _, faults := range []int{1, 2, 1000} {
+			for pi, path := range paths {
+				for warm := 0; warm < 3; warm++ {
+					for _, ek := range []string{"syscall", "permission", "other"} {
+						id := fmt.Sprintf("readfault/%s/%d/%s/%d/%s", lname, faults, path, warm, ek)
+						if !r.Mine(id) {
+							continue
+						}
+						r.Begin(id)
+						r.Nontrivial(id)
+						d := vBaseDoc(0, 4*time.Second)
+						if lk == 1 {
+							d.Ifaces[0].DefaultLifetime = model.D(int64(1800 * time.Second))
+						}
+						ifi, exp, err := vParseOne(d)
+						if err != nil {
+							r.Violation(id, "harness", err.Error(), nil)
+							continue
+						}
+						var ev []vfake.Event
+						var flipT time.Duration
+						pm := vBubble(t, func() {
+							h := vNewH(ifi, exp, time.Duration(pi*977+warm))
+							h.st.SetForwarding(ifi.Name, true)
+							h.startAdvertiser()
+							hookLife := func(ours, _ *ndp.RouterAdvertisement) {
+								h.tr.Add(vfake.Event{Kind: "hook_inconsistent", If: h.cfg.Name, Life: int64(ours.RouterLifetime)})
+							}
+							h.adv.OnInconsistentRA = hookLife
+							time.Sleep(500 * time.Millisecond)
+							// some generations while forwarding is on and readable
+							for k := 0; k < warm; k++ {
+								h.rs(netip.MustParseAddr(fmt.Sprintf("fe80::a:%x", k+1)), true)
+								time.Sleep(700 * time.Millisecond)
+							}
+							h.settle()
+							h.st.SetForwarding(ifi.Name, false)
+							flipT = h.tr.Now()
+							left := faults
+							var fe error
+							switch ek {
+							case "syscall":
+								fe = vfake.ErrSyscall
+							case "permission":
+								fe = vfake.ErrPermission
+							default:
+								fe = vfake.ErrOther
+							}
+							h.st.SetFwdErr(func(int, string) error {
+								if left > 0 {
+									left--
+									return fmt.Errorf("open: %w", fe)
+								}
+								return nil
+							})
+							if strings.Contains(path, "solicited") {
+								h.rs(netip.MustParseAddr("fe80::b:1"), true)
+								time.Sleep(700 * time.Millisecond)
+							}
+							if strings.Contains(path, "periodic") {
+								time.Sleep(4500 * time.Millisecond)
+							}
+							if path == "peer-ra" {
+								h.deliver(vfake.In{Msg: &ndp.RouterAdvertisement{CurrentHopLimit: 13, RouterLifetime: 30 * time.Second}, Hop: 255, From: netip.MustParseAddr("fe80::99")})
+								time.Sleep(100 * time.Millisecond)
+							}
+							// afterwards the state is readable again: more generations
+							h.rs(netip.MustParseAddr("fe80::b:2"), true)
+							time.Sleep(5 * time.Second)
+							h.settle()
+							h.stop(true)
+							h.waitRun(vWatchdog)
+							time.Sleep(time.Second)
+							h.settle()
+							ev = h.tr.Events()
+						})
+						if pm != "" && !strings.Contains(pm, "blocked goroutines remain") {
+							r.Violation(id, "bubble-panic", pm, nil)
+							continue
+						}
+						failedReads, after := 0, 0
+						for _, e := range ev {
+							if e.Kind == "fwd_read" && e.Err != "" {
+								failedReads++
+							}
+							if e.T <= flipT {
+								continue
+							}
+							if (e.Kind == "write_begin" && e.RA != nil) || e.Kind == "hook_inconsistent" {
+								after++
+								if e.Life != 0 {
+									r.Violation(id, "forwarding:stale-after-read-fault", fmt.Sprintf("%s at %v carries router lifetime %v although forwarding has been off since %v (the forwarding state could not be read)", e.Kind, e.T, time.Duration(e.Life), flipT),
+										map[string]any{"trace": vfake.Strings(vOnly(ev, "flip_forwarding", "fwd_read", "write_begin", "hook_inconsistent", "cancel", "run_return"), 60)})
+									break
+								}
+							}
+						}
+						r.Count("read_fault_scenarios", 1)
+						r.Count("failed_forwarding_reads", failedReads)
+						r.Count("generations_after_flip_checked", after)
+					}
+				}
+			}
 		}
 	}
 }
